@@ -22,6 +22,8 @@ Inductive obs :=
 | OHandle (s : nat) (ok : bool) (evs : list ev)
 | OTimerFire
 | OTimeout (evs : list ev)
+| OCancel (s : nat)     (* the context of the parked sender's call was cancelled *)
+| OAbandon (s : nat)    (* a parked call returned with an error without its event ever passing the gate *)
 | OStuck (what : N).
 Inductive case := AlignCase (n : nat) (maxsize : N) (delay : bool) (trace : list obs).
 
@@ -120,6 +122,8 @@ Fixpoint replay (c : cfg) (x : st) (tr : list obs) : list N :=
           | Some x' =>
               (if list_eqb ev_eqb evs (step_evs x x') then [] else [4]) ++ replay c x' tr'
           end
+      | OCancel s => match step c x (Cancel s) with None => [6] | Some x' => replay c x' tr' end
+      | OAbandon _ => [8]
       | OStuck _ => [7]
       end
   end.
@@ -210,6 +214,9 @@ Fixpoint spec (p : sp) (tr : list obs) : list N :=
           spec p2 tr'
       | OTimeout evs => let '(p2, cs) := spec_evs p evs in cs ++ spec p2 tr'
       | OEarlyWake _ => 14 :: spec p tr'
+      | OAbandon s =>  (* the gated event was given up: it counts as never delivered *)
+          let its := nth_l (deliv p) s in
+          spec (mkSp (set_nth s (firstn (length its - 1) its) (deliv p)) (nhand p) (cuts p) (cur p) (called p) (relw p)) tr'
       | OStuck _ => [17]
       | _ => spec p tr'
       end
